@@ -572,10 +572,21 @@ type paramsAnswer struct {
 // paramModel applies the documented rule to one list after the other. stop=true: a bad $ref ends
 // the list it is in. Returns the effective parameters (serialised, sorted) and the bad refs met.
 func paramModel(doc O, lists [][]interface{}, stop bool) (want []string, bad []string) {
+	return paramModelScope(doc, lists, stop, false)
+}
+
+// paramModelScope: stopAll=true reads "stop" as "give up the whole lookup" (the lists that follow are not
+// looked at either), stopAll=false as "give up the list the bad $ref is in". The property says "skip or stop as
+// the callback says" and leaves the reach of a stop open: both readings are accepted.
+func paramModelScope(doc O, lists [][]interface{}, stop, stopAll bool) (want []string, bad []string) {
 	shared := Obj(doc["parameters"])
 	type kv struct{ k, v string }
 	bag := map[string]string{}
+	stopped := false
 	for _, list := range lists {
+		if stopped && stopAll {
+			break
+		}
 		for _, p := range list {
 			pm := Obj(p)
 			if r, ok := pm["$ref"].(string); ok {
@@ -587,6 +598,7 @@ func paramModel(doc O, lists [][]interface{}, stop bool) (want []string, bad []s
 				if target == nil {
 					bad = append(bad, r)
 					if stop {
+						stopped = true
 						break
 					}
 					continue
@@ -684,6 +696,10 @@ func CheckC15(doc O, x *DocIndex, a Answers) error {
 				return err
 			}
 			gv := valuesOf(got.Params)
+			if mode == "stop" && t.exists && (!eqStrings(gv, want) || !eqStrings(sortedCopy(got.Callbacks), sortedCopy(bad))) {
+				// the other reading of "stop"
+				want, bad = paramModelScope(doc, t.lists, true, true)
+			}
 			if !eqStrings(gv, want) {
 				return fmt.Errorf("SafeParamsFor(%s, callback says %s) = %q, expected %q", what, mode, gv, want)
 			}
@@ -720,6 +736,10 @@ func CheckC15(doc O, x *DocIndex, a Answers) error {
 				var got paramsAnswer
 				if err := a.get("SafeParametersFor/"+mode+"|"+t.id, &got); err != nil {
 					return err
+				}
+				if gv := renormalise(got.List); mode == "stop" && (!eqStrings(gv, want) || !eqStrings(sortedCopy(got.Callbacks), sortedCopy(bad))) {
+					// the other reading of "stop"
+					want, bad = paramModelScope(doc, t.lists, true, true)
 				}
 				if gv := renormalise(got.List); !eqStrings(gv, want) {
 					return fmt.Errorf("SafeParametersFor(%s, callback says %s) = %q, expected %q", t.id, mode, gv, want)
